@@ -33,7 +33,7 @@ CLAIMED = {
     'C07': ('other', 'BatchNorm fusing / folding algebra of remove_bn_inplace and fuse_bn_inplace for all bias/affine combinations, weight copy, open-mask forward '
             'identity, user objects untouched, mode restoration. Whole-model clauses (PIT / SuperNet / MPS constructors through the real convert()) on enumerated architectures only.', '3 C07, 0-bis.7'),
     'C08': ('other', 'Per layer (proofs over all reals): for ALL real architectural parameters every PIT layer keeps >= 1 feature, >= 1 tap, dilation >= 1; frozen maskers keep full size; exported sizes == '
-            'summary(); export is defined. Kernel sizes 1..9 (quick) / 1..16, dilations, strides, widths enumerated. Which groups are frozen and that the exported network keeps the output shape: the real graph pass on enumerated graphs and enumerated whole models (bounded in topology); two architectures are known findings (output = channel concatenation; symmetric built-in padding of a temporal convolution).', '3 C08, 0-bis.7, 0-bis.8'),
+            'summary(); export is defined. Kernel sizes 1..9 (quick) / 1..16, dilations, strides, widths enumerated. Which groups are frozen and that the exported network keeps the output shape: the real graph pass on enumerated graphs and enumerated whole models (bounded in topology); one architecture is a known finding (symmetric built-in padding of a temporal convolution).', '3 C08, 0-bis.7, 0-bis.8'),
     'C09': ('other', 'Contracts of the four features calculators (sum over concat of searchable / fixed inputs, flatten multiplier and mask expansion, propagation), '
             'their discrete consistency, the frame of register(), the channel-axis test of is_features_concatenate; the BFS that wires them runs from source on six enumerated '
             'architectures (bounded in topology), not over all DAGs.', '3 C09, 0-bis.7'),
